@@ -349,6 +349,14 @@ func checkC04(e *Engine, r *Report) {
 									if isCallOfObj(x, setZone) {
 										applied, why = true, "recorded in the grant (SetMemoryZone)"
 										recorded = true
+										// on every path on which the allocation succeeded, not only on some
+										if asm := callSucceeded(in.(ssa.Value)); x.Parent() == fn {
+											xi := ssa.Instruction(x)
+											if sp := FindPath(PathQuery{Fn: fn, From: in, Assume: asm, Block: func(y ssa.Instruction) bool { return y == xi },
+												Target: func(y ssa.Instruction) bool { ret, ok := y.(*ssa.Return); return ok && e.maySucceed(ret) }}); sp != nil {
+												recorded, why = false, "the zone can go unrecorded: "+e.pathString(sp)
+											}
+										}
 									}
 									if callObj(x.Common()) == memsetString {
 										for _, r3 := range *x.Referrers() {
